@@ -161,6 +161,21 @@ func extract(repo, out string) error {
 		ok = false
 	}
 
+	// snappy.go: decoded-length guard
+	gsn, err := goast.Parse(filepath.Join(repo, "net/rpc/encoding/snappy.go"))
+	if err != nil {
+		return err
+	}
+	fsn := gsn.Fn("snappyEncoding", "Unmarshal")
+	snappyGuard := hasStmt(gsn, fsn, "decodedLen > maxSnappyExpansion*len(buf)")
+	snappyMax := 0
+	if snappyGuard {
+		snappyMax = intConst(gsn, "maxSnappyExpansion")
+	}
+	if fsn == nil || !goast.Contains(gsn, fsn, "slices.Grow(unmarshalBuf.buf, decodedLen)[:decodedLen]") {
+		ok = false
+	}
+
 	var b strings.Builder
 	b.WriteString("-- GENERATED by `verifharness extract` from /repo (util/crypto, commonspace/pubsub, spacepayloads, settingsstate, app/ldiff) — do not edit\n")
 	b.WriteString("namespace AnySync.Generated.Bytes\n")
@@ -174,6 +189,7 @@ func extract(repo, out string) error {
 	fmt.Fprintf(&b, "/-- ValidateSpaceHeader: `sepIdx == -1` guard before the two slicings; nil header guard -/\ndef spaceIdSepGuard : Bool := %s\ndef spaceHeaderNilGuard : Bool := %s\n", goast.LeanBool(sepGuard), goast.LeanBool(nilGuard))
 	fmt.Fprintf(&b, "/-- NewStateFromSnapshot tolerates a nil snapshot -/\ndef settingsSnapshotNilSafe : Bool := %s\n", goast.LeanBool(snapNilSafe))
 	fmt.Fprintf(&b, "/-- genTupleRanges / getBottomRange arithmetic has the modelled shape -/\ndef rangeArithShape : Bool := %s\n", goast.LeanBool(rangeShape && bottomShape))
+	fmt.Fprintf(&b, "/-- snappyEncoding.Unmarshal rejects `decodedLen > maxSnappyExpansion*len(buf)` before growing its buffer -/\ndef snappyLenGuard : Bool := %s\ndef maxSnappyExpansion : Nat := %d\n", goast.LeanBool(snappyGuard), snappyMax)
 	b.WriteString("end AnySync.Generated.Bytes\n")
 	return os.WriteFile(filepath.Join(out, "BytesConsts.lean"), []byte(b.String()), 0o644)
 }
